@@ -297,7 +297,12 @@ def run(ctx: Ctx):
     ctx.ob("C06-O1", "R16 ordering", ex1, "exactly-one = at-least-one clause + pairwise exclusions", "self._clauses.append(lits)" in t1 and "combinations(lits, 2)" in t1 and "[-a, -b]" in t1, "", node=ex1.node)
     # constraint loop covers all constraints
     cl = [n for n in own_nodes(solve.node) if isinstance(n, ast.For) and "_encode_constraint" in ast.unparse(n)]
-    ctx.ob("C06-O1", "R16 ordering", solve, "every added constraint is encoded", bool(cl) and ast.unparse(cl[0].iter) == "self.model._constraints", "", node=solve.node)
+    uncond = False
+    if cl:
+        calls_ = [x for x in cl[0].body if isinstance(x, ast.Expr) and isinstance(x.value, ast.Call) and ast.unparse(x.value.func) == "self._encode_constraint" and [ast.unparse(a_) for a_ in x.value.args] == [ast.unparse(cl[0].target)]]
+        skips_ = [x for x in ast.walk(cl[0]) if isinstance(x, (ast.Continue, ast.Break))]
+        uncond = len(calls_) == 1 and not skips_
+    ctx.ob("C06-O1", "R16 ordering", solve, "every added constraint is encoded: the loop over the model's constraints hands each one to the dispatcher, unconditionally", bool(cl) and ast.unparse(cl[0].iter) == "self.model._constraints" and uncond, "a constraint that is skipped (a duplicate test on tuples compares IntVars with `==`, which builds a constraint and is always true) is missing from the CNF: models that violate it are decoded", node=cl[0] if cl else solve.node)
 
     # O2 aux grounding
     civ_txt = ast.unparse(civ.node)
@@ -587,7 +592,19 @@ def _t_alldiff_hull(tree):
     g.body = M.stmts("lo = min((v.lb for v in variables))\nhi = max((v.ub for v in variables))\nfor val in range(lo, hi + 1):\n    lits = []\n    for var in variables:\n        if val in var.bool_vars:\n            lits.append(var.bool_vars[val])\n    if len(lits) > 1:\n        self._encode_at_most_one(lits)")
 
 
+def _v_constraint_loop_skips_repeats(tree):
+    g = M.find_func(tree, "SATEncoder.solve")
+    for n in ast.walk(g):
+        if isinstance(n, ast.For) and M.src_is(n.iter, "self.model._constraints"):
+            n.body[0:0] = M.stmts("if constraint in encoded:\n    continue\nencoded.append(constraint)")
+            k = g.body.index(n)
+            g.body.insert(k, M.stmts("encoded = []")[0])
+            return
+    raise M.Skip("constraint loop not found")
+
+
 VARIANTS = [
+    M.Variant("the encoder skips a constraint that compares equal to an earlier one (seed C06-Q)", ENC, _v_constraint_loop_skips_repeats, "C06-O1"),
     M.Variant("zero-coefficient terms kept in the partial-sum chain (seed C06-B)", ENC, _v_zero_filter_early, "C06-O4"),
     M.Variant("twin: all_different over the hull min(lb)..max(ub)", ENC, _t_alldiff_hull, None),
 
